@@ -577,6 +577,7 @@ def digest_eq(d1, d2, ctx):
 
 
 _same_vars = {}
+EQ_PAIRS = {}      # name of an abstract equality variable -> (var, left, right)
 
 
 def same_blob_var(b1, b2):
@@ -739,6 +740,7 @@ def _content_eq_inner(c1, c2, ctx):
     k = ("eq", ks[0], ks[1])
     if k not in _same_vars:
         _same_vars[k] = z3.Bool("eq_%d" % len(_same_vars))
+        EQ_PAIRS[str(_same_vars[k])] = (_same_vars[k], c1, c2)
     return _same_vars[k]
 
 
